@@ -3,11 +3,14 @@ mod ast;
 mod c04;
 mod c33;
 mod c41;
+mod extras;
 
 fn main() {
     let a: Vec<String> = std::env::args().collect();
     // panics of the code under test are caught and reported as data; keep stderr readable
-    std::panic::set_hook(Box::new(|_| {}));
+    if std::env::var("VERIF_PANIC").is_err() {
+        std::panic::set_hook(Box::new(|_| {}));
+    }
     match a.get(1).map(|s| s.as_str()).unwrap_or("") {
         "c33" => c33::main(),
         "c04" => c04::main(),
